@@ -93,11 +93,20 @@ func boundaryC15(emit func(*c15Case)) {
 		M map[string][]int
 		N map[string]map[string]int
 	}
+	type NO struct { // a field tagged omitempty whose type carries a struct plan (C15-omitempty-nested)
+		A In            `json:"a,omitempty"`
+		P *In           `json:"p,omitempty"`
+		L []In          `json:"l,omitempty"`
+		Q []*In         `json:"q,omitempty"`
+		M map[string]In `json:"m,omitempty"`
+		Z In
+	}
 	vals := []any{T1{}, T1{A: 1, B: 2, C: 3}, PS{L: []*In{nil, {X: 1}}, M: map[string]*In{"a": nil, "b": {X: 2}}},
 		PS{}, []*In{nil}, map[string]*In{"k": nil}, [1]*In{nil}, (*In)(nil), EP{Z: 1}, EP{EI: &EI{Q: 2}, Z: 1},
 		Low{1, 2, 3, 4, 5}, By{B: []byte("ab"), LB: [][]byte{[]byte("cd"), nil}, MB: map[string][]byte{"k": []byte("ef")}, I: []byte("gh")},
 		MN{M: map[string][]int{"nil": nil, "one": {1}}, N: map[string]map[string]int{"nil": nil}},
-		[]any(nil), struct{ I any }{I: []any(nil)}, []any{}, map[string]any(nil)}
+		[]any(nil), struct{ I any }{I: []any(nil)}, []any{}, map[string]any(nil),
+		NO{P: &In{}, L: []In{{}}, Q: []*In{{}}, M: map[string]In{"k": {}}}, NO{}}
 	specs := []optSpec{goOpt, {}, {UseTags: true}, {KeyExact: true}, {NestEmbed: true, UseTags: true, KeyExact: true},
 		{UseTags: true, KeyExact: true, CreateKey: "^", BytesAs: ojg.BytesAsArray}, {CreateKey: "type", FullTypePath: true, BytesAs: ojg.BytesAsString}}
 	for _, x := range vals {
@@ -219,10 +228,26 @@ func explain(d *lib.Driver, e *encoder, c *c15Case, got string) (string, bool, e
 		if err != nil {
 			return "", false, err
 		}
+		// among the smallest explaining sets prefer one made of listed known findings only (two
+		// deviations can have the same effect on a case, e.g. the repaired leak and the nested omit)
+		first := ""
 		for i, a := range ans {
-			if modelOutcome(a) == got {
+			if modelOutcome(a) != got {
+				continue
+			}
+			allKnown := true
+			for j := 0; j < len(sets[i]); j++ {
+				allKnown = allKnown && lib.HasKnown(knownList, devKnown[sets[i][j]])
+			}
+			if allKnown {
 				return sets[i], true, nil
 			}
+			if first == "" {
+				first = sets[i]
+			}
+		}
+		if first != "" {
+			return first, true, nil
 		}
 	}
 	return "", false, nil
